@@ -37,7 +37,7 @@ OBSERVE = ["node_lon", "node_lat", "node_x", "node_y", "node_z", "face_node_conn
 
 def cases(tier, seed):
     rng = np.random.default_rng([seed, 1919])
-    n = 140 if tier == "quick" else 3200
+    n = 140 if tier == "quick" else 12000
     for i in range(n):
         yield {"mesh": gen.random_mesh(rng, 40 if tier == "quick" else 120), "part": ["inputs", "copy", "export"][i % 3], "seed": int(rng.integers(0, 10**6))}
 
